@@ -250,3 +250,41 @@ Proof.
   destruct (_ && _); simpl; [|split; reflexivity].
   destruct (semi_loop _ _ _ _ _ _ _ _ _ _) as [[s0 h0]| |]; simpl; split; reflexivity.
 Qed.
+
+(* ------------------------------------------------------------------ *)
+(* SemiSampler with default rank / world_size arguments                 *)
+(* ------------------------------------------------------------------ *)
+Lemma semi_built_history : forall c rank world g evs rnd draw,
+    semi_built c rank world (pg_after g evs) rnd draw
+    = semi_built c rank world (pg_after g (filter (fun ev => negb (is_query ev)) evs)) rnd draw.
+Proof. intros. unfold semi_built. rewrite (resolve_independent_of_history g evs). reflexivity. Qed.
+
+Lemma semi_built_default : forall r W evs, joined_as r W evs -> forall c rnd draw,
+    semi_built c None None (pg_after pg_fresh evs) rnd draw = semi_run_rnd (se_set_world c W) rnd draw r.
+Proof. intros. unfold semi_built. rewrite (resolve_after_init r W) by auto. reflexivity. Qed.
+
+Lemma semi_built_explicit : forall c r W g rnd draw,
+    semi_built c (Some r) (Some W) g rnd draw = semi_run_rnd (se_set_world c W) rnd draw r.
+Proof. reflexivity. Qed.
+
+Lemma semi_default_ranks : forall c rnd draw W (hist : nat -> list pg_event),
+    perm_oracle draw -> semi_ctor_ok c = true ->
+    (forall r, r < W -> joined_as r W (hist r)) ->
+    forall r, r < W ->
+    let m := semi_built c None None (pg_after pg_fresh (hist r)) rnd draw in
+    exists s, r_out m = Ok s /\ length s = semi_E c / W /\ r_len m = semi_E c / W /\
+              r_seeds m = [Z.of_nat r; se_epoch c; (se_seed c + rnd (Z.of_nat r) + rnd (se_epoch c))%Z].
+Proof.
+  intros c rnd draw W hist Hd Hc Hj r Hr. simpl.
+  rewrite (semi_built_default r W (hist r) (Hj r Hr)). unfold semi_run_rnd.
+  assert (Hc' : semi_ctor_ok (se_set_world c W) = true) by exact Hc.
+  destruct (p_equal_length (se_set_world c W) (rnd (Z.of_nat r)) (rnd (se_epoch c)) 0%Z 0%Z draw draw r 0 Hd Hd Hc')
+    as (s1 & s2 & E1 & _ & _ & HL).
+  exists s1. simpl in *. split; [exact E1|].
+  pose proof (p_semi_seed (se_set_world c W) (rnd (Z.of_nat r)) (rnd (se_epoch c)) draw r Hd Hc') as Hs.
+  simpl in Hs.
+  assert (Hlen : r_len (semi_run (se_set_world c W) (rnd (Z.of_nat r)) (rnd (se_epoch c)) draw r) = semi_E c / W).
+  { unfold semi_run. rewrite Hc'. simpl.
+    destruct (semi_iter (se_set_world c W) (rnd (Z.of_nat r)) (rnd (se_epoch c)) draw) as [[? ?]| |]; reflexivity. }
+  split; [rewrite HL; exact Hlen|]. split; [exact Hlen|exact Hs].
+Qed.
